@@ -44,12 +44,12 @@ pub fn run_command_line(sh: &mut Shell, line: &str, tty: bool,
         if sep == "&&" && status != 0 {
             #[cfg(cicada_verif)]
             crate::verif_hooks::event("list_skip", &[("d", vdepth.to_string()), ("status", status.to_string())]);
-            break;
+            continue;
         }
         if sep == "||" && status == 0 {
             #[cfg(cicada_verif)]
             crate::verif_hooks::event("list_skip", &[("d", vdepth.to_string()), ("status", status.to_string())]);
-            break;
+            continue;
         }
         let cmd = token.clone();
         let cr = run_proc(sh, &cmd, tty, capture);
